@@ -130,11 +130,28 @@ impl<T: Subject + Encode + Clone> Machine for DequeM<T> {
 		8
 	}
 	fn seeds(&self) -> usize {
-		3
+		5
 	}
 	fn new(&self, seed: usize) -> Self::Obj {
 		match seed {
 			0 => (VecDeque::new(), 0),
+			3 | 4 => {
+				// a wrapped ring buffer holding 62 (seed 3) / 65 (seed 4) elements, 20 of them in the first
+				// slice: pushes and pops cross the 1 -> 2 byte count-prefix boundary in a wrapped layout,
+				// with the boundary between the lengths of the two slices
+				let n = if seed == 3 { 62 } else { 65 };
+				let mut d = VecDeque::with_capacity(80);
+				let mut c = 0;
+				for _ in 0..n - 20 {
+					d.push_back(T::from_value(&domain::fill(&T::shape(), c)));
+					c += 1;
+				}
+				for _ in 0..20 {
+					d.push_front(T::from_value(&domain::fill(&T::shape(), c)));
+					c += 1;
+				}
+				(d, c)
+			},
 			1 => {
 				// a full ring buffer of capacity 8 whose head is in the middle
 				let mut d = VecDeque::with_capacity(8);
@@ -209,6 +226,19 @@ impl<T: Subject + Encode + Clone> Machine for DequeM<T> {
 		}
 		if d.encode() != got {
 			return Err("encoding twice differs".into());
+		}
+		// every other form of the encoding is as layout-free as the bytes
+		let mut to = Vec::new();
+		d.encode_to(&mut to);
+		if to != got || !d.using_encoded(|b| b == &got[..]) || d.encoded_size() != got.len() {
+			return Err(format!(
+				"deque with slices ({}, {}) capacity {}: encode_to / using_encoded / encoded_size ({}) differ from the {} bytes of encode()",
+				d.as_slices().0.len(),
+				d.as_slices().1.len(),
+				d.capacity(),
+				d.encoded_size(),
+				got.len()
+			));
 		}
 		Ok(fp(&(want, d.as_slices().0.len(), d.capacity())))
 	}
@@ -567,7 +597,7 @@ pub fn run(tier: Tier, reg: &[VT]) -> Report {
 	let t = tier.thorough();
 
 	let d = if t { 8 } else { 7 };
-	rep.part("VecDeque<u8>", &format!("all histories of <= {} ops {{push_front, push_back, pop_front, pop_back, rotate_left, make_contiguous, reserve, shrink_to_fit}} from 3 seeds (empty, full wrapped ring, front-loaded)", d), explore_machine(&DequeM::<u8>(Default::default()), d));
+	rep.part("VecDeque<u8>", &format!("all histories of <= {} ops {{push_front, push_back, pop_front, pop_back, rotate_left, make_contiguous, reserve, shrink_to_fit}} from 5 seeds (empty, full wrapped ring, front-loaded, wrapped rings of 62 and 65 elements around the count-prefix boundary)", d), explore_machine(&DequeM::<u8>(Default::default()), d));
 	let d2 = if t { 7 } else { 6 };
 	rep.part("VecDeque<u32>", &format!("bulk two-slice path, histories of <= {} ops", d2), explore_machine(&DequeM::<u32>(Default::default()), d2));
 	rep.part("VecDeque<Option<u8>>", &format!("element path, histories of <= {} ops", d2), explore_machine(&DequeM::<Option<u8>>(Default::default()), d2));
